@@ -3,6 +3,7 @@ import re
 from qlib import (AnalysisBroken, strip, isnode, walk, is_call, norm_cmp, var_ref, is_null, const_val, short, call_obj,
                   expr_key, field_name, is_this_field, atomic_op)
 from rules.common import (core_and_neg, tnode, other, cpos, npos, branches_on_call, in_subtree, need_some, branches_on_var_null)
+from qlib import atomic_op
 from rules.c02 import cmp_sides
 from rules import c02, c03
 from rules.c09 import Renamed
@@ -30,6 +31,7 @@ def run(ctx):
         r1_r2(ctx, facts, cfg)
         r3(ctx, facts, cfg)
         r4(ctx, facts, cfg)
+        r5(ctx, facts, cfg)
 
 
 def r1_r2(ctx, facts, cfg):
@@ -241,3 +243,67 @@ def r4(ctx, facts, cfg):
     poll = facts.need(BW + "_poll", cfg)[0]
     ctx.ob("C20.R4g", "_poll:tries-shrink-when-idle", bool(poll.calls(r"::_try_shrink_empty_transit_event_buffers$")),
            "requested transit-buffer shrinks are attempted on the idle path", fn=poll)
+
+
+def r5(ctx, facts, cfg):
+    """a thread that logs for the first time becomes visible to the backend: registered under the lock, flag raised afterwards,
+    the backend's cache is rebuilt from the whole registry whenever the flag was seen"""
+    from qlib import is_release
+    reg = facts.need(TCM + "::register_thread_context", cfg)[0]
+    g = reg.g
+    pb = npos(reg, [c for c in reg.calls(r"std::vector<.*>::(push_back|emplace_back)") if is_this_field(call_obj(c), "_thread_contexts")])
+    st = [n for n in reg.walk() if (atomic_op(n) or {}).get("kind") == "store" and is_this_field(atomic_op(n)["obj"], "_new_thread_context_flag")]
+    sp = npos(reg, st)
+    locks = lock_positions(reg)
+    ok = bool(pb) and bool(sp) and bool(locks) and all(g.dominates(pb, p) for p in sp) and not g.exists_path([g.entry_node], [g.exit_node], avoid_nodes=sp) and \
+        all(const_val(atomic_op(n)["value"]) == 1 and is_release(atomic_op(n)["order"]) for n in st) and all(g.dominates(locks, p) for p in pb)
+    ctx.ob("C20.R5a", "ThreadContextManager::register_thread_context:publish", ok,
+           "a new context is appended under the registry lock and the 'new context' flag is raised (>= release) afterwards on every path", fn=reg)
+    sc = [f for f in facts.fns if f.config == cfg and f.cls == "quill::detail::ScopedThreadContext" and f.rec.get("ctor") and f.rec.get("inits")]
+    ok = bool(sc) and bool(sc[0].calls(r"ThreadContextManager::register_thread_context$"))
+    ctx.ob("C20.R5b", "ScopedThreadContext::ctor:registers", ok, "creating a thread's context registers it with the manager", fn=sc[0] if sc else None)
+    nf = facts.need(TCM + "::new_thread_context_flag", cfg)[0]
+    ng = nf.g
+    trues = ng.return_nodes(lambda r: const_val(r.get("val")) == 1)
+    loads = []
+    for bid, b in ng.blocks.items():
+        c = ng.term_cond(bid)
+        if c is None:
+            continue
+        core, neg = core_and_neg(c)
+        a = atomic_op(core)
+        if a and a["kind"] in ("load", "rmw") and is_this_field(a["obj"], "_new_thread_context_flag"):
+            loads.append((bid, "F" if neg else "T"))
+    ok = bool(trues) and bool(loads) and not ng.exists_path([ng.entry_node], trues, avoid_edges=loads) and \
+        all(not ng.exists_path([tnode(ng, b)], [p for p in ng.return_nodes() if p not in trues], avoid_edges=[(b, other(l))]) for (b, l) in loads)
+    ctx.ob("C20.R5c", "ThreadContextManager::new_thread_context_flag:reports-set-flag", ok,
+           "the backend is told 'reload' exactly when the flag was observed set", fn=nf)
+    up = facts.need(BW + "_update_active_thread_contexts_cache", cfg)[0]
+    ug = up.g
+    br = branches_on_call(up, r"::new_thread_context_flag$")
+    clr = npos(up, [c for c in up.calls(r"std::vector<.*>::clear$") if is_this_field(call_obj(c), "_active_thread_contexts_cache")])
+    fe = cpos(up, r"::for_each_thread_context<")
+    lams = [x for x in facts.fns if x.config == cfg and x.rec.get("parent") == up.name]
+    pushes_all = False
+    for l in lams:
+        lg = l.g
+        pbs = npos(l, [c for c in l.calls(r"std::vector<.*>::(push_back|emplace_back)") if any(x["k"] == "MemberExpr" and x.get("mname") == "_active_thread_contexts_cache" for x in walk(c))])
+        if pbs and not lg.exists_path([lg.entry_node], [lg.exit_node], avoid_nodes=pbs):
+            pushes_all = True
+    ok = bool(br) and bool(clr) and bool(fe) and all(ug.dominates(clr, p) for p in fe) and pushes_all and \
+        all(not ug.exists_path([tnode(ug, b)], [ug.exit_node], avoid_nodes=fe, avoid_edges=[(b, other(t))]) for (b, t, c) in br)
+    ctx.ob("C20.R5d", "_update_active_thread_contexts_cache:rebuilds-from-registry", ok,
+           "when told to reload, the backend clears its cache and re-adds every registered context (none is skipped)", fn=up)
+    fe_f = facts.need(TCM + "::for_each_thread_context", cfg)
+    for x in fe_f[:1]:
+        loops = [n for n in x.walk() if n["k"] == "CXXForRangeStmt" and is_this_field(strip(n.get("range")), "_thread_contexts")]
+        early = [e for lp in loops for e in walk(lp.get("body")) if e["k"] in ("BreakStmt", "ReturnStmt", "ContinueStmt")]
+        ctx.ob("C20.R5e", "ThreadContextManager::for_each_thread_context:visits-all", bool(loops) and not early and bool(lock_positions(x)),
+               "the registry walk visits every context, under the lock", fn=x)
+    # every poll refreshes the cache first
+    poll = facts.need(BW + "_poll", cfg)[0]
+    pg = poll.g
+    u = cpos(poll, r"::_update_active_thread_contexts_cache$")
+    rd = cpos(poll, r"::_populate_transit_events_from_frontend_queues$")
+    ctx.ob("C20.R5f", "_poll:refresh-before-reading", bool(u) and bool(rd) and all(pg.dominates(u, p) for p in rd),
+           "each poll refreshes the context cache before reading the queues", fn=poll)
